@@ -15,23 +15,35 @@ CONSTANTS MaxLen
 \* %, a verb letter; CR, LF, TAB, blank; the quote and the escape of both languages; the two bytes of U+00E9
 \* (in order: valid UTF-8, alone: not); the characters command lines are split at; the one JSON encoders escape
 Bytes == {"%", "d", CR, NL, TAB, " ", "\"", "\\", "C3", "A9", ",", "-", "<"}
-Texts == SeqsUpTo(Bytes, MaxLen)
+\* signatures a loader might recognise and skip or act on: the byte-order marks of UTF-8, UTF-16 BE and LE.
+\* A text is a sequence of UNITS (a byte or a whole mark), so that a mark, a mark after / before any byte and
+\* two marks are among the texts of length <= 2.
+Marks == {<<"EF", "BB", "BF">>, <<"FE", "FF">>, <<"FF", "FE">>}
+ByteUnits == {<<b>> : b \in Bytes}
+\* marks travel where bytes are loaded from a file or a pipe: the input and the program text
+MarkChans == EdgeChans \cup {"input-str", "input-ws", "prog-cmt"}
+UnitsOf(ch) == IF ch \in MarkChans THEN ByteUnits \cup Marks ELSE ByteUnits
+TextsOf(ch) == {FlattenSeq(us) : us \in SeqsUpTo(UnitsOf(ch), MaxLen)}
 
 \* the command-line shapes in which a channel is exercised
 ShapesOf(ch) ==
-  LET base == [progVia |-> "inline", nfiles |-> 1, nsel |-> 0, out |-> "none", badProg |-> FALSE, badAt |-> 0, badKind |-> "none"] IN
-  CASE ch \in {"prog-str", "prog-re", "prog-ws", "prog-cmt"} ->
+  LET base == [progVia |-> "inline", nfiles |-> 1, same |-> FALSE, nsel |-> 0, out |-> "none", badProg |-> FALSE, badAt |-> 0, badKind |-> "none"] IN
+  CASE ch \in {"prog-str", "prog-re", "prog-ws", "prog-cmt", "prog-head", "prog-tail"} ->
          {[base EXCEPT !.progVia = v, !.out = o] : v \in {"inline", "file"}, o \in {"none", "path"}}
-    [] ch \in {"input-str", "input-ws"} ->
+    [] ch \in {"input-str", "input-ws", "input-tail"} ->
          {[base EXCEPT !.nfiles = n, !.out = o] : n \in {0, 1}, o \in {"none", "dash"}}
-    [] ch \in {"doc-val", "doc-key"} ->
+    \* the beginning of an input: also of the second of two files
+    [] ch = "input-head" ->
+         {[base EXCEPT !.nfiles = n, !.out = o] : n \in {0, 1}, o \in {"none", "dash"}}
+         \cup {[base EXCEPT !.nfiles = 2], [base EXCEPT !.nfiles = 2, !.same = TRUE]}
+    [] ch \in {"doc-val", "doc-key"} \cup RawOutChans ->
          {[base EXCEPT !.nfiles = n, !.out = o] : n \in {0, 1}, o \in {"none", "dash", "path"}}
     [] ch = "sel" -> {[base EXCEPT !.nsel = 1, !.out = o] : o \in {"none", "dash"}}
     [] ch = "fname" -> {base}
 
-WithText(c, ch, t) == [progVia |-> c.progVia, nfiles |-> c.nfiles, nsel |-> c.nsel, out |-> c.out, badProg |-> c.badProg,
+WithText(c, ch, t) == [progVia |-> c.progVia, nfiles |-> c.nfiles, same |-> c.same, nsel |-> c.nsel, out |-> c.out, badProg |-> c.badProg,
                        badAt |-> c.badAt, badKind |-> c.badKind, text |-> [chan |-> ch, bytes |-> t]]
-Plain(c) == [progVia |-> c.progVia, nfiles |-> c.nfiles, nsel |-> c.nsel, out |-> c.out, badProg |-> c.badProg,
+Plain(c) == [progVia |-> c.progVia, nfiles |-> c.nfiles, same |-> c.same, nsel |-> c.nsel, out |-> c.out, badProg |-> c.badProg,
              badAt |-> c.badAt, badKind |-> c.badKind]
 
 VARIABLE picked      \* the channel was chosen, the text is chosen next (two phases: see BUILDING.md)
@@ -40,7 +52,7 @@ bvars == <<cvars, picked>>
 Init == \E ch \in InChans \cup OutChans : \E c \in ShapesOf(ch) : Start(WithText(c, ch, <<>>)) /\ picked = FALSE
 PickText ==
   /\ ~picked /\ pc = "parse"
-  /\ \E t \in Texts : cfg' = [cfg EXCEPT !.text.bytes = t]
+  /\ \E t \in TextsOf(cfg.text.chan) : cfg' = [cfg EXCEPT !.text.bytes = t]
   /\ picked' = TRUE
   /\ UNCHANGED <<pc, opened, lib, calls, stdout, stderr, outfile, status>>
 Next == PickText \/ (picked /\ (\E r \in LibResults : CliNext(r)) /\ UNCHANGED picked)
@@ -51,6 +63,7 @@ SameShapes(c) == {WithText(d, c.text.chan, c.text.bytes) : d \in ShapesOf(c.text
 Laws ==
   (picked /\ pc = "parse") =>
      /\ LawProgVia(SameShapes(cfg)) /\ LawStdin(SameShapes(cfg)) /\ LawOutPath(SameShapes(cfg)) /\ LawErrors(SameShapes(cfg))
+     /\ LawOutBytes(SameShapes(cfg)) /\ LawSamePath(SameShapes(cfg))
      \* the text is no part of what the wrapper itself decides: the result is that of the same shape without it
      /\ \A r \in LibResults :
           LET a == Result(cfg, r) b == Result(Plain(cfg), r) IN
@@ -60,13 +73,19 @@ Laws ==
 
 \* every channel x every text is there, in every shape of the channel
 Complete ==
-  (picked /\ pc = "parse") =>
-     /\ cfg.text.bytes \in Texts /\ Plain(cfg) \in ShapesOf(cfg.text.chan)
-     /\ Cardinality(InChans \cup OutChans) = 10
+  \* a mark alone, and a text whose last byte is no newline, are among the texts of the channels they are meant for
+  /\ ~picked => LET ch == cfg.text.chan IN
+                 /\ ch \in MarkChans => \A m \in Marks : m \in TextsOf(ch)
+                 /\ ch \in RawOutChans => \E t \in TextsOf(ch) : t # <<>> /\ t[Len(t)] # NL
+  /\ (picked /\ pc = "parse") =>
+     /\ cfg.text.bytes \in TextsOf(cfg.text.chan) /\ Plain(cfg) \in ShapesOf(cfg.text.chan)
+     /\ Cardinality(InChans \cup OutChans) = 17
 
 Vec ==
   (pc = "exit" /\ status # -1) =>
     Emit([cfg |-> Plain(cfg), chan |-> cfg.text.chan, bytes |-> cfg.text.bytes, lib |-> lib, evaluated |-> Len(calls) = 1,
           libtext |-> (IF Len(calls) = 1 THEN calls[1].text.bytes ELSE <<>>),
+          \* the bytes stdout must hold: "<lib>" / "<json>" stand for the library's output / the document
+          stream |-> StreamOf(cfg, stdout),
           status0 |-> status = 0, diag |-> stderr # <<>>, stdout |-> stdout, outfile |-> outfile])
 =============================================================================
